@@ -38,6 +38,7 @@ pub fn prop() -> Prop {
         independent: &[],
         ref_sample: |_| 0,
         required_probes: &["kind_proof_response", "kind_proof_commitment", "kind_proof_other_identifier", "kind_proof_other_commitment", "kind_coeff_0", "kind_coeff_last", "kind_len_t_minus_1", "kind_len_t_plus_1", "kind_len_0", "kind_len_t_plus_65536", "kind_share_plus_1", "kind_share_other_recipient", "kind_r1_under_own_id", "kind_r1_under_unknown_id", "kind_r1_missing", "kind_r1_surplus", "kind_r2_under_own_id", "kind_r2_missing", "receiver_last_sender_checked"],
+        prepare: None,
     }
 }
 
